@@ -8,8 +8,9 @@
 (* adj, evs, nf (observation after the step), rx, storm (Flood only), wf.   *)
 (* An event is matched by the Topo action of the same name, with the        *)
 (* observation as the controller's response R; the step is taken iff        *)
-(* Topo permits that response.  When it does not, the trace stops in a      *)
-(* state whose `bad` names the violated clause (printed as "BAD").          *)
+(* Topo permits that response.  When it does not, the violated clause is    *)
+(* printed (<<"BAD", trace, event, clause>>) and validation continues from  *)
+(* the observed state.                                                      *)
 EXTENDS MCTopo, IOUtils, TLCExt, SequencesExt
 
 Traces == JsonDeserialize(IOEnv.TRACE_FILE)
@@ -38,12 +39,21 @@ TrInit ==
 Ev == Traces[tid][l]
 Obs(e) == [adj |-> ToSet(e.adj), evs |-> e.evs, nf |-> ToSet(e.nf)]
 
-Fail(why) ==
+\* A step Topo does not permit: say why (one BAD line per violated step) and
+\* go on from the OBSERVED state - the clauses are about the state reached (and
+\* the step from the previous observation), so later, independent violations
+\* of the same history are found too.  `bad` keeps the first violated clause.
+Note(why) ==
+  /\ bad' = (IF bad = "ok" THEN why ELSE bad)
+  /\ PrintT(<<"BAD", tid, l, why>>)
+  /\ l' = l + 1 /\ UNCHANGED tid
+\* ... unless the observation cannot be interpreted at all: the trace ends here
+Stop(why) ==
   /\ bad' = why
   /\ PrintT(<<"BAD", tid, l, why>>)
   /\ UNCHANGED <<vars, tid, l>>
 
-Ok1 == l' = l + 1 /\ bad' = "ok" /\ UNCHANGED tid
+Ok1 == l' = l + 1 /\ bad' = bad /\ UNCHANGED tid
 
 \* a controller step with the observed response: Topo's SwitchUp(s, R) /
 \* SwitchDown(s, R) / Advance(d, R), i.e. Env /\ Permitted /\ Do, with the
@@ -51,31 +61,33 @@ Ok1 == l' = l + 1 /\ bad' = "ok" /\ UNCHANGED tid
 \* (Permitted == Reason(...) = "ok")
 TrCtl(e, ph, cn, dt, q, env, Do(_)) ==
   LET R == Obs(e)
-      why == IF ~e.wf THEN "malformed-observation"
-             ELSE Reason(R, ph, cn, NewAge(ph, cn, dt), q, dt, LiveSet(phys, conn))
-  IN IF why = "ok" THEN env /\ Do(R) /\ Ok1 ELSE Fail(why)
+      why == Reason(R, ph, cn, NewAge(ph, cn, dt), q, dt, LiveSet(phys, conn))
+  IN IF ~e.wf THEN Stop("malformed-observation")
+     ELSE IF why = "ok" THEN env /\ Do(R) /\ Ok1
+     ELSE env /\ Do(R) /\ Note(why)
 
 TrUp   == LET e == Ev IN e.a = "SwitchUp" /\
             TrCtl(e, phys, conn \cup {e.s}, 0, 0, UpEnv(e.s), LAMBDA R : UpDo(e.s, R))
 TrDown == LET e == Ev IN e.a = "SwitchDown" /\
             TrCtl(e, phys, conn \ {e.s}, 0, 0, DownEnv(e.s), LAMBDA R : DownDo(e.s, R))
 TrAdv  == LET e == Ev IN e.a = "Advance" /\
-            TrCtl(e, phys, conn, e.d, Min(quiet + e.d, Cap), AdvEnv(e.d), LAMBDA R : AdvDo(e.d, R))
+            TrCtl(e, phys, conn, e.d, Lesser(quiet + e.d, Cap), AdvEnv(e.d), LAMBDA R : AdvDo(e.d, R))
 
 \* a wire changes: no controller code runs, the observation must be unchanged
 TrWire == LET e == Ev IN e.a \in {"Cut", "Restore"} /\
             IF e.wf /\ ToSet(e.adj) = adj /\ ToSet(e.nf) = nf /\ e.evs = <<>>
             THEN (IF e.a = "Cut" THEN Cut(e.lk) ELSE Restore(e.lk)) /\ Ok1
-            ELSE Fail("changed-without-cause")
+            ELSE Stop("changed-without-cause")
 
 TrFlood == LET e == Ev IN e.a = "Flood" /\
-             IF e.wf /\ Len(e.rx) = net.n /\ e.storm = Storm(e.s, e.p)
-                /\ (\A t \in Switches : e.rx[t] = Delivered(e.s, e.p)[t])
+             IF ~e.wf \/ Len(e.rx) # net.n THEN Stop("malformed-observation")
+             ELSE IF e.storm = Storm(e.s, e.p) /\ (\A t \in Switches : e.rx[t] = Delivered(e.s, e.p)[t])
              THEN Flood(e.s, e.p) /\ Ok1
-             ELSE Fail(IF e.storm THEN "flood-storm" ELSE "flood-delivery-mismatch")
+             ELSE Flood(e.s, e.p) /\ Note(IF e.storm THEN "flood-storm" ELSE "flood-delivery-mismatch")
 
-TrNext == /\ bad = "ok"
-          /\ l <= Len(Traces[tid])
+\* (after Stop() nothing matches any more: l stays and the event stays violated)
+TrNext == /\ l <= Len(Traces[tid])
+          /\ bad \notin {"malformed-observation", "changed-without-cause"}
           /\ (TrUp \/ TrDown \/ TrAdv \/ TrWire \/ TrFlood)
 TrSpec == TrInit /\ [][TrNext]_tvars
 
